@@ -12,8 +12,9 @@
    C18:Attach:content-id (a stale cached content_id on a detached node that is being re-attached) and the
    inadmissible inputs (one node object at two positions).  History level: Inv2 holds in every state of every
    history made of such guarded steps (C18_inv_history_partial); replace() and replace_with(None / detached node) are
-   covered for a receiver without a parent only.  NOT covered: replace / replace_with of a node that has a parent,
-   replace_with(attached node), the two transformation classes (where most findings live), and the rejections raised while
+   covered for a receiver without a parent, and replace_with(None) for any node that has a parent (removal from a
+   single-child or tuple/list field, with the propagation of content_id to all ancestors).  NOT covered: replace /
+   replace_with(node) of a node that has a parent, replace_with(attached node), the two transformation classes (where most findings live), and the rejections raised while
    attaching (C19).
    Every theorem about the invariant is therefore `_partial`.  See design.d/C18.md. *)
 From Oak Require Import Spec.LegacySpec Proofs.LegacyProofs Proofs.LegacyInv.
@@ -94,8 +95,8 @@ Proof. exact replace_with_own_parent_diverges. Qed.
 (* ====================================================================================================== *)
 (* Round 2: the strengthened invariant Inv2 (Spec/LegacySpec2.v) and the guarded step / history theorems   *)
 (* ====================================================================================================== *)
-From Oak Require Import Spec.LegacySpec2 Proofs.LegacyHistory Proofs.LegacyReplace Proofs.LegacyStep Proofs.LegacyQueries2
-  Proofs.LegacyExamples.
+From Oak Require Import Spec.LegacySpec2 Proofs.LegacyHistory Proofs.LegacyReplace Proofs.LegacyRemove2 Proofs.LegacyRemoveSeq3 Proofs.LegacyStep Proofs.LegacyQueries2
+  Proofs.LegacyDetachTotal Proofs.LegacyExamples.
 
 (* 1. Inv2 = RegOk /\ Rank (child addresses are smaller than their parent's: acyclicity, makes the fuel of
       tree_cid irrelevant) /\ PidOk (no dead stored parent id) /\ LInv: holds initially, implies Inv *)
@@ -138,6 +139,17 @@ Proof. exact inv2_step_detach_form. Qed.
 Theorem C18_inv2_step_detach_self_partial : forall H ct s a s' b,
   Inv2 H ct s -> step H ct s (ODetachSelf a) = (s', RBool b) -> Inv2 H ct s'.
 Proof. exact inv2_step_detach_self_form. Qed.
+(*    ... and from an Inv2 state detach()/detach_self() of an existing node ALWAYS returns a boolean (the fuel
+      |heap|+1 suffices = the real call terminates, and the KeyError of _nodes.pop cannot happen): the outcome premise
+      above is always met *)
+Theorem C18_inv_step_detach_total_partial : forall H ct s a s' ob,
+  Inv2 H ct s -> live s a ->
+  (step H ct s (ODetach a) = (s', ob) \/ step H ct s (ODetachSelf a) = (s', ob)) ->
+  Inv2 H ct s' /\ exists b, ob = RBool b.
+Proof. exact inv2_step_detach_total. Qed.
+Example C18_inv_step_detach_total_example :
+  Inv2 Hid ct0 x_s3 /\ live x_s3 1 /\ step Hid ct0 x_s3 x_o4 = (x_s4, RBool true).
+Proof. exact x_example_detach_total. Qed.
 Example C18_inv_step_detach_example :
   Inv2 Hid ct0 x_s3 /\ step Hid ct0 x_s3 x_o4 = (x_s4, RBool true) /\
   detached x_s3 0 = false /\ detached x_s4 0 = true /\ detached x_s4 1 = true /\ parent x_s4 0 = None.
@@ -206,6 +218,42 @@ Example C18_inv_step_replace_with_root_example :
   step Hid ct0 x_s10 x_o11 = (x_s11, RNone) /\
   detached x_s11 5 = true /\ detached x_s11 3 = false /\ parent x_s11 2 = Some 3 /\ id_of x_s11 3 = id_of x_s10 5.
 Proof. exact x_example_replace_with. Qed.
+(*    replace_with(None) of an attached node that HAS a parent and sits in a single-child field of it (parent_index
+      None; the call succeeds only if the field is optional): the subtree is detached, the parent's field becomes None
+      and _reset_content_id recomputes the digests of the parent and of ALL its ancestors - the invariant (with the
+      content_id clause for every ancestor: "changes propagate to all ancestors") holds afterwards.
+      Guard: the field names of the parent are distinct (true of every class instance; the model's constructor accepts
+      any field list).  The second theorem is the same for a node in a tuple / list field: the element is removed and
+      the parent_index of every later sibling is decremented. *)
+Theorem C18_inv_step_replace_with_none_child_partial : forall H ct s a p f s',
+  Inv2 H ct s -> live s a -> attached s a ->
+  parent s a = Some p -> c_pf (cellD s a) = Some f -> c_pi (cellD s a) = None ->
+  NoDup (map fst (c_fs (cellD s p))) ->
+  step H ct s (OReplaceWith a None) = (s', RNone) -> Inv2 H ct s'.
+Proof. exact inv2_step_replace_with_none_child. Qed.
+Theorem C18_inv_step_replace_with_none_seq_partial : forall H ct s a p f ix s',
+  Inv2 H ct s -> live s a -> attached s a ->
+  parent s a = Some p -> c_pf (cellD s a) = Some f -> c_pi (cellD s a) = Some ix ->
+  NoDup (map fst (c_fs (cellD s p))) ->
+  step H ct s (OReplaceWith a None) = (s', RNone) -> Inv2 H ct s'.
+Proof. exact inv2_step_replace_with_none_seq. Qed.
+Example C18_inv_step_replace_with_none_seq_example :
+  Inv2 Hid ct0 v_s3 /\ live v_s3 0 /\ attached v_s3 0 /\ parent v_s3 0 = Some 2 /\
+  c_pf (cellD v_s3 0) = Some (lit "tup") /\ c_pi (cellD v_s3 0) = Some 0 /\ c_pi (cellD v_s3 1) = Some 1 /\
+  NoDup (map fst (c_fs (cellD v_s3 2))) /\
+  step Hid ct0 v_s3 v_o4 = (v_s4, RNone) /\
+  detached v_s4 0 = true /\ skids v_s4 2 = [1] /\ c_pi (cellD v_s4 1) = Some 0 /\
+  c_cid (cellD v_s4 2) <> c_cid (cellD v_s3 2) /\
+  guarded Hid ct0 empty_st [v_o1; v_o2; v_o3; v_o4].
+Proof. exact v_example_remove_seq. Qed.
+Example C18_inv_step_replace_with_none_child_example :
+  Inv2 Hid ct0 w_s2 /\ live w_s2 0 /\ attached w_s2 0 /\ parent w_s2 0 = Some 1 /\
+  c_pf (cellD w_s2 0) = Some (lit "opt") /\ c_pi (cellD w_s2 0) = None /\
+  NoDup (map fst (c_fs (cellD w_s2 1))) /\
+  step Hid ct0 w_s2 w_o3 = (w_s3, RNone) /\
+  detached w_s3 0 = true /\ skids w_s3 1 = [] /\ c_cid (cellD w_s3 1) <> c_cid (cellD w_s2 1) /\
+  guarded Hid ct0 empty_st [w_o1; w_o2; w_o3].
+Proof. exact w_example_remove. Qed.
 Example C18_inv_step_replace_root_example :
   Inv2 Hid ct0 x_s8 /\ parent x_s8 1 = None /\ detached x_s8 1 = false /\
   step Hid ct0 x_s8 x_o9 = (x_s9, RNode 5) /\
@@ -218,8 +266,9 @@ Proof. exact x_example_replace. Qed.
 (* 6. histories: every state of a history whose steps are all covered (step_guard: the operations above with their
       guards and outcomes; a call that does not return leaves the state as it is) satisfies Inv2, hence Inv.
       Covered besides the above: replace() / replace_with(None) / replace_with(detached node) of a parent-less
-      receiver, and the rejections ASTNodeReplaceError / ASTNodeReplaceWithError-of-replace_with(None) (state unchanged).
-      Missing for C18 itself: replace / replace_with of a node that has a parent, replace_with(attached node),
+      receiver, replace_with(None) of a node that has a parent (any child field), and the rejections
+      ASTNodeReplaceError / ASTNodeReplaceWithError-of-replace_with(None) (state unchanged).
+      Missing for C18 itself: replace / replace_with(node) of a node that has a parent, replace_with(attached node),
       ASTTransformVisitor, ASTTransformer, and the steps rejected while attaching - a history containing one of them
       is not `guarded`. *)
 Theorem C18_inv_step_partial : forall H ct s o s' ob,
